@@ -114,6 +114,8 @@ ASSUME ThmOptimize
 ASSUME Walk(<<"..", "canary.txt">>, 1, 0) = "outside" /\ Walk(<<"sub", "..", "..", "canary.txt">>, 1, 0) = "outside"
 ASSUME Walk(<<"sub", "..", "a.txt">>, 1, 0) = "inside" /\ Walk(<<"..", "root", "a.txt">>, 1, 0) = "inside"
 ASSUME Walk(<<"..", "..", "canary2.txt">>, 1, 0) = "outside" /\ Walk(<<"%2e%2e", "canary.txt">>, 1, 0) = "inside"
+ASSUME Walk(<<"..", "..", "parent", "root">>, 1, 0) = "inside" /\ Walk(<<"..", "..", "parent", "canary.txt">>, 1, 0) = "outside"
+ASSUME Walk(<<"..", "..", "..", "parent">>, 1, 0) = "outside" /\ Walk(<<"..", ".", "root", "sub">>, 1, 0) = "inside"
 InvTrue == TRUE
 SetupTiles == SrvTiles
 =============================================================================
